@@ -977,6 +977,14 @@ func extract() error {
 		}},
 		{"gpNoUnwrap", func() bool { return !mk("$.t.a").PathInMask(d, "$.t.a") }},
 		{"gpTypAll", func() bool { return !mk("$.*").PathInMask(d, "$.l[1]") }},
+		{"prefixKeeps", func() bool { // black `$.t.a` then `$.t`: as found t keeps its child map and still "has children"
+			m, err := fieldmask.Options{BlackListMode: true}.NewFieldMask(d, "$.t.a", "$.t")
+			if err != nil {
+				panic("probe: " + err.Error())
+			}
+			_, ok := m.Field(4)
+			return ok
+		}},
 		{"blackStar", func() bool {
 			m, err := fieldmask.Options{BlackListMode: true}.NewFieldMask(d, "$.l[*]")
 			if err != nil {
